@@ -62,7 +62,7 @@ def call_block(chunk, idx):
 
 def run(prop, tier, *, mc_module, mc_cfg, driver, trace_module, trace_spec="TSpec", trace_consts="", key_fn, case_fn=None,
         level="model_checking", assumptions=(), extra_cov=None, harness_extra=(), mc_workers=1, required_actions=(), race=False,
-        max_events=20000, post_harness=None, harness_env=None, rule=""):
+        max_events=20000, post_harness=None, harness_env=None, rule="", part=False):
     t0 = time.time()
     wd = C.scratch("verif-%s-" % prop)
     binary = C.build_harness(race=race)
@@ -158,7 +158,7 @@ def run(prop, tier, *, mc_module, mc_cfg, driver, trace_module, trace_spec="TSpe
             with open(nxt, "w") as f:
                 f.writelines(rest)
             cur_chunk, cur = nxt, validate(trace_module, trace_spec, nxt, trace_consts, wd)
-    code = C.settle(prop, violations)
+    code = 0 if part else C.settle(prop, violations)
     cov = {
         "states": r.distinct, "transitions": r.generated,
         "traces_validated_against_impl": summ["runs"],
@@ -176,8 +176,30 @@ def run(prop, tier, *, mc_module, mc_cfg, driver, trace_module, trace_spec="TSpe
             C.log("NOTE [%s] %s" % (prop, nn))
     if extra_cov:
         cov.update(extra_cov(summ) if callable(extra_cov) else extra_cov)
+    if part:
+        cov["assumptions"] = list(assumptions)
+        return 0, violations, cov
     C.write_evidence(prop, tier, level, cov, time.time() - t0, len(violations), list(assumptions))
     return code, violations, cov
+
+
+def combine(prop, tier, parts, t0, level="model_checking"):
+    """parts: list of (name, violations, cov) from run(..., part=True). Settles once and writes one evidence file."""
+    violations, assumptions = [], []
+    cov = {"states": 0, "transitions": 0, "traces_validated_against_impl": 0, "events_validated": 0, "samples": [], "parts": {}, "exhaustive": True}
+    for name, v, c in parts:
+        violations += v
+        for k in ("states", "transitions", "traces_validated_against_impl", "events_validated"):
+            cov[k] += c.get(k, 0)
+        cov["samples"] += c.get("samples", [])[:2]
+        for a in c.pop("assumptions", []):
+            if a not in assumptions:
+                assumptions.append(a)
+        cov["parts"][name] = {k: c[k] for k in c if k not in ("samples",)}
+    cov["rule"] = "; ".join("%s: %s" % (n, c.get("rule", "")) for n, _, c in parts)[:1500]
+    code = C.settle(prop, violations)
+    C.write_evidence(prop, tier, level, cov, time.time() - t0, len(violations), assumptions)
+    return code
 
 
 def reproduce(prop, replay_path, binary, wd, driver, trace_module, trace_spec, trace_consts, tier, harness_extra=(), harness_env=None):
